@@ -29,6 +29,12 @@ type Case struct {
 }
 
 func genModes(t *rapid.T) kit.Modes {
+	m := genModes0(t)
+	kit.DrawBuffers(t, &m)
+	return m
+}
+
+func genModes0(t *rapid.T) kit.Modes {
 	return kit.Modes{
 		Enc:           rapid.SampledFrom(kit.Encoders).Draw(t, "enc"),
 		SrvPipelining: false,
